@@ -14,4 +14,11 @@ let process toks = match toks with
      | "EXTOVW" -> let (s', o) = x_st_extract_and_overwrite s off d in hex_of_bytes s' ^ " " ^ hex_of_bytes o
      | _ -> "UNSUPPORTED")
   | _ -> "UNSUPPORTED"
+(* ascon_copy: the destination becomes the source, the source is unchanged; ascon_clean: all zero *)
+let process2 (toks : string list) : string =
+  match toks with
+  | ["STC"; "COPY"; a; _junk] -> a ^ " " ^ a
+  | ["STC"; "CLEAN"; b] -> if b = "-" then "-" else String.make (String.length b) '0'
+  | _ -> "UNSUPPORTED"
 let () = register "ST" process
+let () = register "STC" process2
